@@ -3,6 +3,6 @@
 From Coq Require Import ExtrOcamlBasic.
 From SV Require Import Lib.Bytes Lib.ExtractBase Model.Wire Model.Routes Gen.Consts.
 Extraction "c17_model.ml" extract_anchor ipmatch_re ipmatch py_int is_space_s is_space_b
-  maskbits route_netstat route_iproute raw_routes raw_routes_asfound list_routes
+  maskbits route_netstat route_iproute route_windows raw_routes raw_routes_asfound list_routes
   list_routes_asfound render_routes send_routes server_advertise onroutes client_receive
   dec decZ words readlines.
